@@ -97,7 +97,7 @@ func refTagName(re *regexp.Regexp, key string) string {
 
 func (c13) Run(e *Env) {
 	e.ProbeDecl("lookup-hit", "lookup-miss", "ip-reused-by-other-pod", "phase-only-update", "deletion-timestamp-update", "label-edit", "annotation-edit", "ip-changed", "ip-unset", "delete", "lookup-before-pod-exists",
-		"host-network-pod", "tag-group-empty-falls-back-to-key", "regex-without-group", "via-ipsink", "racing-lookup", "partition", "tombstone-delete-after-relist", "changed-while-partitioned", "key-swapped-in-one-update", "two-changes-in-one-race-window", "informer-resync", "lookup-begun-while-another-is-parked")
+		"host-network-pod", "tag-group-empty-falls-back-to-key", "regex-without-group", "via-ipsink", "racing-lookup", "partition", "tombstone-delete-after-relist", "changed-while-partitioned", "key-swapped-in-one-update", "two-changes-in-one-race-window", "informer-resync", "lookup-begun-while-another-is-parked", "label-and-annotation-gain-the-same-tag", "sink-requests-pile-up")
 	labelRes := []string{"", "^app$", "^(?:app|team/(?P<tag>.+))$", "^tier(?P<tag>.*)$", "^nomatch$", "^team/(.+)$", "^(?:tier-(?P<tag>.+)|team/(?P<tag>.+)|note)$"}
 	annRes := []string{k8s.DefaultAnnotationTagRegex, "", "^gostatsd\\.atlassian\\.com/(?P<tag>.*)$", "^note$", "^(?P<tag>x)?note$"}
 	lr, ar := labelRes[e.Draw(len(labelRes))], annRes[e.Draw(len(annRes))]
@@ -424,7 +424,7 @@ func (c13) Run(e *Env) {
 			apply(p, "create")
 		case 1:
 			p := pods[names[e.Draw(len(names))]]
-			switch e.Draw(8) {
+			switch e.Draw(9) {
 			case 0:
 				old := p.phase
 				p.phase = []core_v1.PodPhase{core_v1.PodPending, core_v1.PodRunning, core_v1.PodSucceeded, core_v1.PodFailed}[e.Draw(4)]
@@ -473,6 +473,13 @@ func (c13) Run(e *Env) {
 				if len(ks) > 0 {
 					delete(p.labels, ks[0])
 				}
+			case 8:
+				// one update that gives a label and an annotation the same key and the same value: where both
+				// regexes match, the pod gains two identical tags at once
+				k := []string{"app", "note"}[e.Draw(2)]
+				v := val("both", 4)
+				p.labels[k], p.annotations[k] = v, v
+				e.Probe("label-and-annotation-gain-the-same-tag")
 			case 7:
 				// one update that removes a key and adds another (same number of keys before and after)
 				m, keys, pre := p.annotations, annKeys, "a"
@@ -590,6 +597,45 @@ func (c13) Run(e *Env) {
 				<-done // the answer given during the race may be old or new: not judged
 				e.Settle()
 			}
+			if h := holder(ip); via && h != nil && observed == nil && e.Chance(1, 4) {
+				// requests pile up on the sink while nobody reads the answers: one for another address,
+				// one for this address, the pod changes, then one more for this address. Of the two answers
+				// for this address at least the one requested after the change must describe the pod as it is now.
+				e.Probe("sink-requests-pile-up")
+				other := ips[(e.Draw(len(ips)-1)+1+indexOf(ips, ip))%len(ips)]
+				prov.IpSink() <- gostatsd.Source(other)
+				e.Settle()
+				prov.IpSink() <- gostatsd.Source(ip)
+				e.Settle()
+				h.labels["app"] = fmt.Sprintf("piled%d", step)
+				e.Event("update %s while answers wait", h.name)
+				apply(h, "update")
+				prov.IpSink() <- gostatsd.Source(ip)
+				e.Settle()
+				var forIP []*gostatsd.Instance
+				for i := 0; i < 3; i++ {
+					info := <-prov.InfoSource()
+					if string(info.IP) == ip {
+						forIP = append(forIP, info.Instance)
+					}
+				}
+				_, wantTags, ok := expect(ip)
+				fresh := false
+				for _, inst := range forIP {
+					if !ok {
+						fresh = fresh || inst == nil
+						continue
+					}
+					if inst != nil {
+						got := append([]string(nil), inst.Tags...)
+						sort.Strings(got)
+						fresh = fresh || strings.Join(got, "|") == strings.Join(wantTags, "|")
+					}
+				}
+				if len(forIP) != 2 || !fresh {
+					e.Failf("C13/stale-or-phantom-answer", "two lookups of %s were requested on the sink, the second after its pod's update had been observed; %d answers came back and none describes the pod as it is now (want tags %v)", ip, len(forIP), wantTags)
+				}
+			}
 			inst := lookup(ip, via)
 			e.Event("lookup %s via-sink=%v -> %v", ip, via, inst != nil)
 			judge(ip, inst, map[bool]string{false: "Peek", true: "IpSink lookup"}[via])
@@ -603,4 +649,13 @@ func (c13) Run(e *Env) {
 		inst, _ := prov.Peek(gostatsd.Source(ip))
 		judge(ip, inst, "final Peek")
 	}
+}
+
+func indexOf(xs []string, x string) int {
+	for i, v := range xs {
+		if v == x {
+			return i
+		}
+	}
+	return 0
 }
